@@ -520,7 +520,7 @@ func (p *parser) typeName() (string, error) {
 	}
 	if p.isOp("[") {
 		p.next()
-		in, err := p.ident()
+		in, err := p.dotted()
 		if err != nil {
 			return "", err
 		}
